@@ -32,8 +32,8 @@ Record InvL (s : state) : Prop := {
           self (th s c) = false /\ (job (th s c) <> (-1)%Z -> flag s c = true);
   l_mq : (pc (th s 0) = PWait KAck \/ pc (th s 0) = PWait KQuit) -> qu s 0 <> [] -> flag s 0 = true;
   l_mtop : pc (th s 0) = PWait KTop -> (search s = true \/ quitf s = true) ->
-          flag s 0 = true \/ epc s = ENotifyGo;
-  l_mrd : pc (th s 0) = MRdSearch -> quitf s = true -> flag s 0 = true;
+          flag s 0 = true \/ epc s <> EIdle;
+  l_mrd : pc (th s 0) = MRdSearch -> quitf s = true -> flag s 0 = true \/ epc s <> EIdle;
   l_sq : search s = true -> quitf s = false;
   l_busy : mbusy (pc (th s 0)) = true -> search s = true
 }.
